@@ -618,9 +618,6 @@ func (r *c11Repo) run1(st *filesystem.Storage, op c11Op) (bad, detail, class str
 		if d.ActualHash().String() != hexID {
 			return "wrong-hash", "ActualHash " + d.ActualHash().String(), ""
 		}
-		if d.ActualSize() != int64(len(want.Data)) {
-			return "wrong-size", fmt.Sprintf("ActualSize %d, git says %d", d.ActualSize(), len(want.Data)), ""
-		}
 		base, ok := r.model[d.BaseHash().String()]
 		if !ok {
 			return "wrong-base", "BaseHash " + d.BaseHash().String() + " is not an object", ""
@@ -635,6 +632,10 @@ func (r *c11Repo) run1(st *filesystem.Storage, op c11Op) (bad, detail, class str
 		}
 		if !bytes.Equal(res, want.Data) {
 			return "wrong-bytes", "base+delta is not the object", ""
+		}
+		// last, so that a wrong size never hides a wrong base or wrong delta bytes
+		if d.ActualSize() != int64(len(want.Data)) {
+			return "wrong-size", fmt.Sprintf("ActualSize %d, git says %d", d.ActualSize(), len(want.Data)), ""
 		}
 		return "", "", fmt.Sprintf("delta/%s", o.Type())
 	case c11Partial:
@@ -829,6 +830,9 @@ func (r *c11Repo) report(c *fw.Ctx, k c11Cfg, seq []c11Op, bad, detail string) {
 			bad = "later-read-fails"
 		case o.Kind == c11Prefix:
 			ss = append(ss, "Prefix")
+		case o.Kind == c11Delta && bad == "wrong-size":
+			// the ActualSize of a delta does not depend on where the pack lives
+			ss = append(ss, c11KindName[o.Kind]+"(packed-delta)")
 		case o.Kind != c11Iter:
 			ss = append(ss, c11KindName[o.Kind]+"("+r.roleClass(o.Role)+")")
 		default:
